@@ -13,7 +13,7 @@ UNITS = {
     'pool': {'template': 'units/pool/unit.rs', 'serves': ['C04', 'C08', 'C18', 'C03', 'C10'], 'min_verified': 95},
     'blockdata': {'template': 'units/blockdata/unit.rs', 'serves': ['C13', 'C10', 'C12'], 'min_verified': 36},
     'routing': {'template': 'units/routing/unit.rs', 'serves': ['C16'], 'min_verified': 42},
-    'votor': {'template': 'units/votor/unit.rs', 'serves': ['C05'], 'min_verified': 60},
+    'votor': {'template': 'units/votor/unit.rs', 'serves': ['C05', 'C18'], 'min_verified': 60},
     'parent_ready': {'template': 'units/parent_ready/unit.rs', 'serves': ['C07'], 'min_verified': 64},
     'repair': {'template': 'units/repair/unit.rs', 'serves': ['C14', 'C15'], 'min_verified': 14},
     'slot_state': {'template': 'units/slot_state/unit.rs', 'serves': ['C03', 'C04', 'C06'], 'min_verified': 88},
